@@ -397,6 +397,42 @@ theorem targets_are_per_family (rc : RunCfg) (c : ChromIn) (ts : List Target) (h
 
 example : chromTargets (Ex.exRc .PS) Ex.exChrom = .ok Ex.exOut.targets := by rfl
 
+/-- **pedigree merge rule in a whole run** (round-8 seed C03-f): with `--ped` and genetic haplotyping on — the OPTION
+`rc.genetic`, one value for the whole run — on every requested chromosome and for EVERY family with more than one member,
+wherever it stands in the list of families and whatever families (e.g. samples without relatives) stand before it, the
+components handed to the writer for the family's members put any two accessible positions that are each connected (by the
+family's selected reads) to an accessible position homozygous in some family member into the same set.  (The loop
+`for representative_sample, family in sorted(families.items())` carries no state from one family / chromosome to the next.) -/
+theorem pedigree_merge_in_every_family_of_the_run (rc : RunCfg) (c : ChromIn) (ts : List Target)
+    (hts : chromTargets rc c = .ok ts) (hreq : requested rc c.name = true) (hg : rc.genetic = true)
+    (f : FamilyIn) (hf : f ∈ c.families) (hm : f.members.length > 1) :
+    ∃ fo, familyStage rc.distrust rc.genetic f = .ok fo ∧ (∀ t ∈ fo.targets, t ∈ ts ∧ t.comps = fo.comps) ∧
+      ∀ p q p' q' : Nat, p ∈ fo.accessible → q ∈ fo.accessible →
+        (p' ∈ fo.accessible ∧ HomInSomeMember rc.distrust f.members.length f.homozygous f.superreads p') →
+        (q' ∈ fo.accessible ∧ HomInSomeMember rc.distrust f.members.length f.homozygous f.superreads q') →
+        FamConnected rc.distrust rc.genetic f fo p p' → FamConnected rc.distrust rc.genetic f fo q q' →
+        compOf fo.comps p = compOf fo.comps q := by
+  obtain ⟨fo, hfo, htg⟩ := targets_are_per_family rc c ts hts hreq f hf
+  refine ⟨fo, hfo, htg, ?_⟩
+  intro p q p' q' hp hq hp' hq' c1 c2
+  have hs := familyStage_spec rc.distrust rc.genetic f fo hfo
+  obtain ⟨rep, h1, h2, _, _, _⟩ := stage_findComponents hs
+  rw [h1 p, h1 q]
+  simp only [hp, hq, if_true, Option.some.injEq]
+  refine (h2 p q).mpr ?_
+  obtain ⟨m, hm', hmem⟩ := overallParams_master fo.accessible rc.distrust f.members.length rc.genetic f.homozygous
+    f.superreads hm hg
+  have hl : FamConnected rc.distrust rc.genetic f fo p' q' :=
+    Chain.single (Or.inr ⟨m, hm', (hmem p').mpr hp', (hmem q').mpr hq'⟩)
+  exact Chain.trans c1 (Chain.trans hl (Chain.symm Linked.symm c2))
+
+/-- non-vacuity: a single-sample family processed BEFORE a trio on the same chromosome: the trio's components 10–20 and
+40–50 (20 and 40 homozygous in a member) are one set for every member of the trio -/
+example : (match chromTargets ⟨.PS, false, false, true, ["S", "F", "M", "C"], []⟩ ⟨"chr2", [Ex.exFam, Ex.trioFam], []⟩ with
+    | .ok ts => ts.map (fun t => (t.name, compOf t.comps 10, compOf t.comps 50))
+    | .error _ => []) =
+    [("S", some 10, some 10), ("F", some 10, some 10), ("M", some 10, some 10), ("C", some 10, some 10)] := by rfl
+
 /-- **read list**: `--output-read-list` has one row per read used for phasing, in their order; the phase-set column of a
 row is `1 +` the leftmost position connected (by the selected reads of the family) to the read's FIRST variant; with
 trusted genotypes every variant of the read lies in that same phase set -/
